@@ -485,22 +485,30 @@ def r9_propagation(F, res, rid):
     f = F.one(r"LRTable::<'g, 's>::propagate_follows$")
     cls = F.all_nested_closures(f)
     # the for_each closure that extends target follows
+    # the code that extends the target item's lookaheads: a for_each closure, or the body of a `for` loop in the function
     main = None
-    for cl in cls:
+    for cl in cls + [f]:
         if any(callee(t).endswith("::extend") for _, t in cl.calls()):
             main = cl
+            break
     if main is None:
-        res.anchor_lost(rid, "closure extending the target item's follow not found", f.loc())
+        res.anchor_lost(rid, "extension of the target item's follow not found in propagate_follows", f.loc())
         return
     where = main.loc()
     okd = None
-    for p in Sim(main, F).run():
+    try:
+        mpaths = Sim(main, F, max_paths=100000).run()
+    except mir.PathLimit:
+        res.anchor_lost(rid, "too many paths in %s" % main.path, where)
+        return
+    for p in mpaths:
         ex = [e for e in p.events if e[0] == "call" and e[1].endswith("::extend")]
         if not ex:
             continue
         dst, src = ex[0][2][0], ex[0][2][1]
         # dst: target_item.follow (target from self.states[target_state].items filtered is_kernel); src: source item found in state.items
-        tgt_ok = has_field(dst, "follow", "LRItem") and has_call(dst, "Iterator::filter") and mir.contains(dst, lambda x: isinstance(x, tuple) and x[0] == "upvar" and "states" in x[1])
+        tgt_ok = has_field(dst, "follow", "LRItem") and has_call(dst, "Iterator::filter") and (
+            mir.contains(dst, lambda x: isinstance(x, tuple) and x[0] == "upvar" and "states" in x[1]) or has_field(dst, "states", "LRTable"))
         src_ok = has_field(src, "follow", "LRItem") and has_call(src, "::find")
         finds = [c for c in mir.calls_in(src) if c[1].endswith("::find")]
         src_iter = finds[0][2][0] if finds else None
